@@ -162,7 +162,7 @@ def body(max_steps, c):
 
     try:
         for step in range(n_steps):
-            kind = c.choice(["ok_call", "failing_call", "failing_call", "closure_fault", "reentrant", "canary"])
+            kind = c.choice(["ok_call", "failing_call", "failing_call", "closure_fault", "closure_reuse", "reentrant", "canary"])
             x0 = c.choice([0.7, 1.1, 1.6])
             if kind == "canary":
                 history.append(["canary"])
@@ -188,6 +188,38 @@ def body(max_steps, c):
                 rec = recursive_grad(3, x0)
                 if abs(float(g) - want) > 1e-12 or abs(rec - 24.0 * x0) > 1e-9:
                     return fail("wrong_value", f"step {step}: re-entrant / recursive use gives {float(g)!r}, {rec!r}", bucket("reentrant_value"), sample=sample)
+                continue
+            if kind == "closure_reuse":
+                # one VJP function of a drawn primitive configuration called several times: every call is a pure function of its
+                # cotangent (no state kept in the closure between calls)
+                from ..derivcheck import primal
+                from ..templates import TEMPLATES
+                from ..templates.core import instantiate, namespaces
+                from .. import values as _values
+
+                names = sorted(TEMPLATES)
+                tname = names[c.int(0, len(names) - 1)]
+                inst = instantiate(c, TEMPLATES[tname].draw(c))
+                history.append(["closure_reuse", tname, inst.call.desc])
+                st, y0 = primal(inst)
+                if st != "ok":
+                    continue
+                NP, AG = namespaces()
+                y0a = onp.asarray(y0)
+                mk = (lambda s_: _values.cdirection(inst.vseed, y0a.shape, s_)) if y0a.dtype.kind == "c" else (lambda s_: _values.direction(inst.vseed, y0a.shape, s_))
+                g1, g2 = onp.array(mk(71)), onp.array(mk(72))
+                try:
+                    vjp, y = autograd.make_vjp(inst.f(AG))(inst.x_carried())
+                    r1 = onp.asarray(vjp(g1))
+                    r2 = onp.asarray(vjp(g2))
+                    r1b = onp.asarray(vjp(g1))
+                except Exception as e:
+                    if not from_autograd(e):
+                        raise
+                    continue  # raising is C01's / C15's business
+                if r1.shape != r1b.shape or not onp.array_equal(r1, r1b, equal_nan=True):
+                    return fail("history_dependence", f"step {step}: VJP function of {tname} {inst.call.desc} gives a different answer when called again with "
+                                "the same cotangent", bucket("closure_reuse"), sample=sample)
                 continue
             if kind == "closure_fault":
                 history.append(["closure_fault", x0])
